@@ -22,7 +22,7 @@ func init() {
 		Rule: "one run = one real broker with the in-memory or disk store (retention 30 s .. 30 days by tape) and 2-4 clients; tape-generated publishes (retain flag, ?ttl=N incl. 0, keys with/without the store permission, nested channels over {a,b}), last wills with/without retain fired by closing the connection, clock advances that expire some messages, and later subscriptions (keys with/without the load permission, ?last=0/1/N, from/until windows, '+' filters). The packets a client receives between its SUBSCRIBE and the SUBACK must be exactly the expected replay (last N stored, live, matching messages in non-decreasing time) and a publish must be stored iff (ttl>0 or retain) and the key may store, once, with the requested ttl (retain = configured retention, checked through expiry). 1 run in 6 = the cluster campaign: 2-3 brokers with their own stores on the simulated mesh, publishes with a ttl on any of them (one per second), fresh clients subscribing with last=N on any of them: the replay must be the last N stored matching messages of all stores (the survey over the mesh is pumped by the simulator), oldest first, before the SUBACK. non-trivial = >= 1 subscription with a non-empty expected replay; distinct = distinct canonical logs",
 		Real:  []string{"broker.Service, broker.Conn", "pubsub.OnPublish / OnSubscribe / OnLastWill", "storage.SSD / InMemory (badger)", "security.ParseChannel options (ttl, last, from, until)", "Service.Authorize"},
 		Stub:  []string{"client sockets (simnet)", "weaveworks/mesh (simmesh, single node)", "clock (synctest)"},
-		Assumptions: []string{"sequential histories: a live publish never races a replay (the property does not quantify over schedules)", "no query lands in the very second a message expires", "last values above 1000 belong to C09"},
+		Assumptions: []string{"a live publish races a replay only in the concurrent campaign (1 run in 6), where the connection goroutines are interleaved at mutex boundaries", "no query lands in the very second a message expires", "last values above 1000 belong to C09"},
 	})
 }
 
@@ -84,6 +84,10 @@ func runC07(c *kernel.Ctx) {
 	t := c.Tape
 	if c.Params["campaign"] != "single" && (c.Params["campaign"] == "cluster" || t.Chance(1, 6)) {
 		runC07Cluster(c)
+		return
+	}
+	if c.Params["campaign"] != "single" && (c.Params["campaign"] == "conc" || t.Chance(1, 5)) {
+		runC07Concurrent(c)
 		return
 	}
 	c.SleepToEpoch()
